@@ -497,7 +497,7 @@ func (viso *VirtualISO) makeVolumeDescriptors(volumeName string) {
 		},
 		Primary: &primaryVolumeDescriptorBody{
 			SystemIdentifier:              mangleStrA(runtime.GOOS, false),
-			VolumeIdentifier:              mangleStrD(volumeName, false),
+			VolumeIdentifier:              volumeIdentifier(volumeName, false, volumeIdentifierSize),
 			VolumeSpaceSize:               viso.volumeSizeSectors,
 			VolumeSetSize:                 1,
 			VolumeSequenceNumber:          1,
@@ -506,7 +506,7 @@ func (viso *VirtualISO) makeVolumeDescriptors(volumeName string) {
 			TypeLPathTableLoc:             pathTableLLBA,
 			TypeMPathTableLoc:             pathTableMLBA,
 			ApplicationIdentifier:         "ps3netsrv",
-			VolumeSetIdentifier:           mangleStrD(volumeName, false),
+			VolumeSetIdentifier:           volumeIdentifier(volumeName, false, volumeSetIdentifierSize),
 			VolumeCreationDateAndTime:     volumeDescriptorTimestampFromTime(now),
 			VolumeModificationDateAndTime: volumeDescriptorTimestampFromTime(now),
 			FileStructureVersion:          1,
@@ -522,7 +522,7 @@ func (viso *VirtualISO) makeVolumeDescriptors(volumeName string) {
 		},
 		Primary: &primaryVolumeDescriptorBody{
 			SystemIdentifier:              mangleStrA(runtime.GOOS, true),
-			VolumeIdentifier:              mangleStrD(volumeName, true),
+			VolumeIdentifier:              volumeIdentifier(volumeName, true, volumeIdentifierSize),
 			VolumeSpaceSize:               viso.volumeSizeSectors,
 			EscapeSequences:               "%/@",
 			VolumeSetSize:                 1,
@@ -532,7 +532,7 @@ func (viso *VirtualISO) makeVolumeDescriptors(volumeName string) {
 			TypeLPathTableLoc:             pathTableJolietLLBA,
 			TypeMPathTableLoc:             pathTableJolietMLBA,
 			ApplicationIdentifier:         "ps3netsrv",
-			VolumeSetIdentifier:           mangleStrD(volumeName, true),
+			VolumeSetIdentifier:           volumeIdentifier(volumeName, true, volumeSetIdentifierSize),
 			VolumeCreationDateAndTime:     volumeDescriptorTimestampFromTime(now),
 			VolumeModificationDateAndTime: volumeDescriptorTimestampFromTime(now),
 			FileStructureVersion:          1,
